@@ -22,6 +22,37 @@ def src(node):
     return ast.unparse(node)
 
 
+class Renamer(ast.NodeTransformer):
+    """alpha-renaming, so that the generated table does not depend on how parameters, the `with`
+    variable or the generated class happen to be called"""
+    def __init__(self, mapping):
+        self.mapping = mapping
+
+    def visit_Name(self, node):
+        if node.id in self.mapping:
+            return ast.copy_location(ast.Name(id=self.mapping[node.id], ctx=node.ctx), node)
+        return node
+
+    def visit_arg(self, node):
+        if node.arg in self.mapping:
+            node.arg = self.mapping[node.arg]
+        return node
+
+
+def canonical(call, handed):
+    import copy
+    call = copy.deepcopy(call)
+    mapping = {}       # parameter names are API (they can be passed by keyword): kept as they are
+    for node in ast.walk(call):
+        if isinstance(node, ast.With):
+            for it in node.items:
+                if isinstance(it.optional_vars, ast.Name):
+                    mapping[it.optional_vars.id] = 'fh'
+    if handed:
+        mapping[handed] = 'CLS'
+    return Renamer(mapping).visit(call)
+
+
 def factory_sites(path):
     tree = ast.parse(open(path).read())
     out = []
@@ -43,11 +74,18 @@ def factory_sites(path):
                             isinstance(st.targets[0], ast.Attribute) and src(st.targets[0].value) == 'self' \
                             and isinstance(st.value, ast.Name) and st.value.id in params:
                         alias['self.' + st.targets[0].attr] = actual[params.index(st.value.id)]
-            setup = [src(st) for st in fn.body
+            handed = None
+            if alias:
+                vals = sorted(set(alias.values()))
+                if len(vals) == 1 and vals[0].isidentifier():
+                    handed = vals[0]
+                    alias = {k: 'CLS' for k in alias}
+            import copy
+            setup = [src(Renamer({handed: 'CLS'} if handed else {}).visit(copy.deepcopy(st))) for st in fn.body
                      if not (isinstance(st, ast.Expr) and isinstance(st.value, ast.Constant))
                      and not (isinstance(st, ast.ClassDef) and st.name == cls.name)
                      and not isinstance(st, ast.Return)]
-            out.append((fn.name, cls.name, call[0], alias, setup))
+            out.append((fn.name, cls.name, canonical(call[0], handed), alias, setup))
     return out
 
 
